@@ -1,28 +1,89 @@
 /* c04_drv.c - conformance driver for C04 (PLS is a correct least-squares family).
- * usage: c04_drv <out.ndjson> <seed> <first> <count>
+ * usage: c04_drv <out.ndjson> <seed> <first> <count> [base|cls|pairs]
  * Every case has its own stream (seed, index); the real PLS() runs in a child (one processor, iteration budget, watchdog).
  * Sums of squares are logged in units of 1e-9 of D_j (sum of squares of response j about its mean if the response block is
  * centred, about 0 otherwise: RSS_0 = 1e9), residuals in units of 1e-12, both saturating at 2e9.
- *   Reset{case,tries}  Fit{n,p,ny,nlv,xs,ys,noise,intc,cond,nnew}
- *   Rss{a,j,rss,r2gap}       RSS of recalculated_y[:,ny*(a-1)+j] against y_j; r2gap = reported R2 / RMSE of
- *                            PLSRegressionStatistics against 1 - RSS/TSS and sqrt(RSS/n)
- *   Stat{a,j,r2gap,rmsegap}  same statistics on unseen objects (predictions by PLSYPredictorAllLV)
- *   Ols{j,rssPls,rssOls,err,full}   independent least squares (LAPACK dgels): on [1 X] when both blocks are centred; when a block
- *                            is not centred (option -1) on the design the model then spans (no intercept column)
+ *
+ * mode base: the original seeded problems (tall X with n >= p+2, offsets of a few spreads, every eighth case with one predictor in
+ *            small units).
+ * mode pairs: base problems with the pair of scaling options (7 x 7) and one / several responses fixed by the case index % 98, nlv = rank:
+ *            the quantifier "all scaling pairs" is covered exhaustively for the OLS limit (the ledger keeps the set of pairs decided).
+ * mode cls:  the case index selects an input / history class of INPUT-CLASSES.md inside the quantifier (idx % 16, table KD_SCHED, see
+ *            c04_gen.h): n = p+1, n = p+2, square X used uncentred, block-size boundaries, offsets up to 1e8 spreads on centred
+ *            blocks, whole-block magnitudes, per-column unit systems, tied non-representable grids, in-process histories (fit A,
+ *            fit A' same shape other data, fit B other shape, fit A again, every one projected, outputs carried from fit to fit),
+ *            exact fits before nlv = rank, dependent responses, single predictor / one unseen object, affine maps with a large d,
+ *            duplicate objects.  In this mode every output object handed to the library is fresh / already has the right shape and
+ *            holds other data / has another shape and holds other data (Fit.reuse 0 / 1 / 2; 3 = left over from the previous fit).
+ *
+ *   Reset{case,tries,sub}    sub = position of the fit in its process (0 = first fit of a new process)
+ *   Fit{n,p,ny,nlv,xs,ys,noise,intc,cond,nnew,small,rank,offx,offy,lgx,lgy,shape,kind,tag,reuse,hist,hrel,exk,nb,pb,lb}
+ *                            rank = numerical rank of the preprocessed X as the library sees it; offx / offy = largest |entry| / rms
+ *                            spread of a centred block (0 for a block used as it is); exk = number of latent variables after which
+ *                            the fit is exact by construction (0: none); nb / pb / lb = block-boundary codes of n, p, nlv
+ *   Rss{a,j,rss,r2gap,r2,dr} RSS of recalculated_y[:,ny*(a-1)+j] against y_j; r2gap = reported R2 / RMSE of PLSRegressionStatistics
+ *                            against 1 - RSS/TSS and sqrt(RSS/n); r2 = the reported R2 itself (1e-9, signed, saturating),
+ *                            dr = D_j / TSS_j (1e-3; 1000 for a centred response)
+ *   Stat{a,j,r2gap,rmsegap}  same statistics on unseen objects (predictions by PLSYPredictorAllLV); R2 only when the unseen
+ *                            responses are not all equal
+ *   Bias{a,j,gap,gapNew}     reported bias against |1 - slope of predicted on observed| (training / unseen)       [extra layer]
+ *   Ols{j,rssPls,rssOls,err,full,bn}   independent least squares (LAPACK dgels) on the design the model spans: predictors / responses
+ *                            centred in extended precision when the block is centred, no intercept column otherwise;
+ *                            bn = sum_j |beta_j| sd(x_j) / sd(y) of that solution (1e-3): how far a shift of the predictor means moves the fit
+ *   OlsNew{j,err,bn,lev}     nlv = rank: the least-squares coefficients applied to the unseen objects against PLSYPredictorAllLV   [extra layer]
  *   Beta{a,errTrain,errNew}  single response: ybar + s_y * ((x - xbar)/s_x) . PLSBetasCoeff(a) against the score form
- *   Affine{c,lg,d,errTrain,errNew}  single centred response: model of c*y+d against c*(predictions)+d, all LV counts
- *                            (|c| from 1e-8 to 1e8 for centring-only responses; lg = floor(log10|c|))
- *   XScale{lg,errTrain,errNew}   model of X*s (change of units, s = 10^lg..) predicts the same, training and unseen, all LV counts
+ *   Affine{c,lg,d,off,errTrain,errNew}  single centred response: model of c*y+d against c*(predictions)+d, all LV counts
+ *                            (|c| from 1e-8 to 1e8 for centring-only responses; lg = floor(log10|c|)); off = offset of c*y+d in spreads
+ *   XScale{lg,errTrain,errNew}   model of X*s (change of units) predicts the same, training and unseen, all LV counts
+ *   XUnits{kmax,errTrain,errNew} per-column unit systems: the model of X with every column in its original units predicts the same  [extra layer]
+ *   Exact{a,rss}             by construction the fit is exact from exk latent variables on                          [extra layer]
  *   Reuse{calls,err}         PLSYPredictor for a = 1..nlv into one and the same output matrix against recalculated_y
- *   End{lvs,cols,full,xfull}  Skip{case}  Abort{case,rc}
+ *   End{lvs,cols,full,xfull,addr}  addr = 1: the model object lives at the address a model of an earlier fit of this process had
+ *   Skip{case}  Abort{case,rc}
  */
 #include "scientific.h"
 #include "verif_rt.h"
 #include "pls_common.h"
+#include "c04_gen.h"
 
 static unsigned long g_seed;
+static int g_cls = 0, g_pairs = 0;
 
-/* every eighth case ("small-unit" class): one predictor is expressed in small units (spread 1e-4) under a scaling option whose
+enum { KD_BASE = 0, KD_TALL1, KD_TALL2, KD_SQUARE, KD_BLOCK, KD_OFFX, KD_OFFY, KD_OFFXY, KD_MAGN, KD_UNITS, KD_GRID, KD_HIST, KD_EXACT,
+       KD_YREL, KD_EDGE, KD_AFFOFF, KD_DUPROW, KD_N };
+static const char *KD_NAME[KD_N] = {"base", "tall1", "tall2", "square", "block", "offx", "offy", "offxy", "magn", "units", "grid", "hist", "exact",
+                                    "yrel", "edge", "affoff", "duprow"};
+static const int KD_SCHED[16] = {KD_TALL1, KD_TALL2, KD_SQUARE, KD_BLOCK, KD_OFFX, KD_OFFY, KD_OFFXY, KD_MAGN, KD_UNITS, KD_GRID, KD_HIST, KD_EXACT,
+                                 KD_YREL, KD_EDGE, KD_AFFOFF, KD_DUPROW};
+
+typedef struct {
+  pc_case c; int kind, nlv, rank, tries, lgx, lgy, reuse, hist, exk, kmax; long jz; double cond; char tag[40];
+  matrix *Xorig, *Xnorig;         /* per-column unit class: the same predictors in their original units */
+} c4_prob;
+
+/* output objects handed to the library; in a history they live from fit to fit */
+typedef struct { matrix *pn, *cc, *rm, *bi, *ccn, *rmn, *bin, *out, *pn2, *pn3; dvector *be; } c4_outs;
+static void outs_init(c4_outs *o){
+  initMatrix(&o->pn); initMatrix(&o->cc); initMatrix(&o->rm); initMatrix(&o->bi); initMatrix(&o->ccn); initMatrix(&o->rmn); initMatrix(&o->bin);
+  initMatrix(&o->out); initMatrix(&o->pn2); initMatrix(&o->pn3); initDVector(&o->be);
+}
+/* reuse 0: a fresh object; 1: already rows x cols, holding other data; 2: another shape, holding other data; 3: whatever the previous fit left */
+static void prep_m(matrix **m, int reuse, size_t rows, size_t cols){
+  if(reuse == 3) return;
+  DelMatrix(m);
+  if(reuse == 0){ initMatrix(m); return; }
+  if(reuse == 1) NewMatrix(m, rows, cols); else NewMatrix(m, rows + 1, cols + 2);
+  MatrixSet(*m, 7.25);
+}
+static void prep_v(dvector **v, int reuse, size_t size){
+  if(reuse == 3) return;
+  DelDVector(v);
+  if(reuse == 0){ initDVector(v); return; }
+  NewDVector(v, reuse == 1 ? size : size + 3);
+  DVectorSet(*v, 7.25);
+}
+
+/* every eighth case of the base mode ("small-unit" class): one predictor is expressed in small units (spread 1e-4) under a scaling option whose
  * scale factor is then below the library's zero-scale guard (1e-3): the library treats that variable as constant - consistently
  * when fitting and when predicting - so the model has rank p-1; single response, nlv <= p-1 */
 #define SMALL_CLASS(idx) ((idx) % 8 == 6)
@@ -53,49 +114,280 @@ static int admit_small(pc_case *c, long jz, double maxcond, double *cond){
 }
 
 static long q9(double x){ return vq_unit(x, 1e-9); }
+/* block-boundary code of a size: 0 multiple of 4, 1 one above, 3 one below, 2 in between; +4 when it is 8k-1 / 8k / 8k+1 (8, 16, 32, 40 +- 1) */
+static int blk_code(int v){ int c = v % 4; if(v >= 7 && (v % 8 == 0 || v % 8 == 1 || v % 8 == 7)) c += 4; return c; }
 
-static int one_case(void *arg){
-  long idx = *(long *)arg;
-  vrng r = pc_stream(g_seed, (unsigned long)idx, 4);
-  pc_case c; int nlv = 1, tries = 0, ok = 0; double cond = 0; long jz = -1;
-  for(tries = 1; tries <= 30; tries++){
-    draw_params(&c, &nlv, &r, idx);
-    int norm = (c.xs == 1 || c.xs == 2 || c.xs == 4 || c.xs == 5);
-    pc_gen_real(&c, &r, norm ? -1.0 : 0.0, norm ? 2.0 : 1.0, c.xs == -1 ? 0.5 : 4.0, c.ys == -1 ? 0.5 : 5.0);
+/* size of the least-squares coefficients of the problem, sum_j |beta_j| sd(x_j) / sd(y), worst response (centred predictors; from the input alone):
+ * a predictor block far from the origin is admitted only when it is at most 50 (the ledger's tolerance multiplies the representability of the
+ * predictor means by it) */
+static double bnorm_of(pc_case *c){
+  int n = c->n, p = c->p, ny = c->ny;
+  double **D = pc_alloc(n, p), **Tg = pc_alloc(n, ny), **Bo = pc_alloc(p, ny), worst = 0;
+  double *sdx = calloc(p, sizeof(double));
+  for(int j = 0; j < p; j++){ long double mm = 0; for(int i = 0; i < n; i++) mm += c->X->data[i][j]; mm /= n; for(int i = 0; i < n; i++){ D[i][j] = (double)((long double)c->X->data[i][j] - mm); sdx[j] += D[i][j] * D[i][j]; } sdx[j] = sqrt(sdx[j] / n); }
+  double *sdy = calloc(ny, sizeof(double));
+  for(int j = 0; j < ny; j++){ long double mm = 0; for(int i = 0; i < n; i++) mm += c->Y->data[i][j]; mm /= n; if(c->ys < 0) mm = 0; for(int i = 0; i < n; i++) Tg[i][j] = (double)((long double)c->Y->data[i][j] - mm);
+    double m2 = pc_colmean(c->Y->data, j, n); for(int i = 0; i < n; i++) sdy[j] += (c->Y->data[i][j] - m2) * (c->Y->data[i][j] - m2); sdy[j] = sqrt(sdy[j] / n); }
+  if(pc_dgels(D, n, p, Tg, ny, Bo) != 0) worst = INFINITY;
+  else for(int j = 0; j < ny; j++){ double b = 0; for(int q = 0; q < p; q++) b += fabs(Bo[q][j]) * sdx[q]; b /= sdy[j]; if(!(b <= worst)) worst = b; }
+  pc_free(D, n); pc_free(Tg, n); pc_free(Bo, p); free(sdx); free(sdy);
+  return worst;
+}
+
+static void gen_default(pc_case *c, vrng *r){
+  int norm = (c->xs == 1 || c->xs == 2 || c->xs == 4 || c->xs == 5);
+  pc_gen_real(c, r, norm ? -1.0 : 0.0, norm ? 2.0 : 1.0, c->xs == -1 ? 0.5 : 4.0, c->ys == -1 ? 0.5 : 5.0);
+}
+
+/* one admissible problem of the base mode: exactly the draws of the original driver */
+static int draw_base(c4_prob *q, vrng *r, long idx){
+  pc_case *c = &q->c;
+  memset(q, 0, sizeof(*q)); q->kind = KD_BASE; q->jz = -1; strcpy(q->tag, "-");
+  for(q->tries = 1; q->tries <= 30; q->tries++){
+    draw_params(c, &q->nlv, r, idx);
+    gen_default(c, r);
     if(SMALL_CLASS(idx)){
-      jz = vr_int(&r, 0, c.p - 1);
-      for(int i = 0; i < c.n; i++) c.X->data[i][jz] = 1e-4 * vr_norm(&r);
-      for(int i = 0; i < c.nnew; i++) c.Xn->data[i][jz] = 1e-4 * vr_norm(&r);
-      if(admit_small(&c, jz, 1e3, &cond)){ ok = 1; break; }
-      pc_case_free(&c);
+      q->jz = vr_int(r, 0, c->p - 1);
+      for(int i = 0; i < c->n; i++) c->X->data[i][q->jz] = 1e-4 * vr_norm(r);
+      for(int i = 0; i < c->nnew; i++) c->Xn->data[i][q->jz] = 1e-4 * vr_norm(r);
+      if(admit_small(c, q->jz, 1e3, &q->cond)){ q->rank = c->p - 1; return 1; }
+      pc_case_free(c);
       continue;
     }
-    if(pc_admit(&c, 1e3, &cond)){ ok = 1; break; }
-    pc_case_free(&c);
+    if(pc_admit(c, 1e3, &q->cond)){ q->rank = c->p; return 1; }
+    pc_case_free(c);
   }
-  if(!ok){ VRT_EMIT("{\"e\":\"Skip\",\"case\":%ld}", idx); return 0; }
-  int n = c.n, p = c.p, ny = c.ny, m = c.nnew;
-  VRT_EMIT("{\"e\":\"Reset\",\"case\":%ld,\"tries\":%d}", idx, tries);
-  VRT_EMIT("{\"e\":\"Fit\",\"n\":%d,\"p\":%d,\"ny\":%d,\"nlv\":%d,\"xs\":%d,\"ys\":%d,\"noise\":%d,\"intc\":0,\"cond\":%ld,\"nnew\":%d,\"small\":%ld}",
-           n, p, ny, nlv, c.xs, c.ys, c.noise, (long)ceil(cond), m, jz);
+  return 0;
+}
+
+/* mode pairs: the quantifier "all scaling pairs", stratified: case index % 98 fixes the pair of scaling options (7 x 7) and one / several
+ * responses; tall problem as in the base mode, nlv = rank so that the OLS limit (S1) is decided on every pair */
+static int draw_pairs(c4_prob *q, vrng *r, long idx){
+  pc_case *c = &q->c;
+  memset(q, 0, sizeof(*q)); q->kind = KD_BASE; q->jz = -1; strcpy(q->tag, "pairs");
+  for(q->tries = 1; q->tries <= 60; q->tries++){
+    c->intcase = 0;
+    c->n = (int)vr_int(r, 6, 40);
+    int pmax = c->n - 2 < 10 ? c->n - 2 : 10;
+    c->p = (int)vr_int(r, 1, pmax);
+    c->xs = (int)(idx % 7) - 1; c->ys = (int)((idx / 7) % 7) - 1;
+    c->ny = ((idx / 49) % 2 == 0) ? 1 : (int)vr_int(r, 2, 3);
+    c->noise = (int)((idx / 98) % 4);
+    c->nnew = (int)vr_int(r, 3, 10);
+    q->nlv = c->p;
+    gen_default(c, r);
+    if(pc_admit(c, 1e3, &q->cond)){ q->rank = c->p; return 1; }
+    pc_case_free(c);
+  }
+  return 0;
+}
+
+/* one admissible problem of class `kind`; shape_like != NULL: same shape, options, noise class and LV count as that problem, other data */
+static int draw_class(c4_prob *q, vrng *r, long idx, int kind, c4_prob *shape_like, int other_shape){
+  pc_case *c = &q->c;
+  long round = idx / 16;
+  memset(q, 0, sizeof(*q)); q->kind = kind; q->jz = -1;
+  for(q->tries = 1; q->tries <= 40; q->tries++){
+    int lvrank = (int)((round + idx) % 3 != 1), lvmin = 1, lvforce = 0; double lvu = vr_unif(r);
+    strcpy(q->tag, "-"); q->lgx = q->lgy = 0; q->exk = 0; q->kmax = 0; q->Xorig = q->Xnorig = NULL;
+    q->reuse = (int)vr_int(r, 0, 2);
+    c->intcase = 0;
+    c->xs = (int)vr_int(r, -1, 5); c->ys = (int)vr_int(r, -1, 5);
+    c->ny = (round % 2 == 0) ? 1 : (int)vr_int(r, 2, 3);
+    c->noise = (int)vr_int(r, 0, 3);
+    c->nnew = (int)vr_int(r, 3, 10);
+    c->n = (int)vr_int(r, 6, 40); { int pm = c->n - 2 < 10 ? c->n - 2 : 10; c->p = (int)vr_int(r, 1, pm); }
+    int sub = 0;
+    switch(kind){
+      case KD_TALL1: c->p = (int)vr_int(r, 5, 10); c->n = c->p + 1; strcpy(q->tag, "K1:n=p+1"); break;
+      case KD_TALL2: c->p = (int)vr_int(r, 4, 10); c->n = c->p + 2; strcpy(q->tag, "K1:n=p+2"); break;
+      case KD_SQUARE: c->p = (int)vr_int(r, 6, 10); c->n = c->p; c->xs = -1; strcpy(q->tag, "K1:square-uncentred"); break;
+      case KD_BLOCK: {
+        static const int NB[] = {7, 8, 9, 15, 16, 17, 31, 32, 33, 39, 40, 12, 24}, PB[] = {3, 4, 5, 7, 8, 9};
+        c->n = NB[vr_int(r, 0, 12)]; c->p = PB[vr_int(r, 0, 5)]; if(c->p > c->n - 2) c->p = c->n - 2;
+        if(round % 4 != 3) c->ny = 1;                                   /* the coefficient form (unrolled products) needs one response */
+        lvforce = PB[vr_int(r, 0, 5)]; if(lvforce > c->p) lvforce = c->p;
+        strcpy(q->tag, "K2:block"); break; }
+      case KD_OFFX: case KD_OFFY: case KD_OFFXY:
+        /* K3 moves CENTRED blocks only: on a block used as it is the offset is signal (no bound computable from the input holds);
+         * level scaling (5) divides by the mean and is refused by the admission test for such columns anyway */
+        if(kind != KD_OFFY) c->xs = (int)vr_int(r, 0, 4);
+        if(kind != KD_OFFX) c->ys = (int)vr_int(r, 0, 4);
+        break;
+      case KD_MAGN: {
+        int small = (int)vr_int(r, 0, 1), which = (int)vr_int(r, 0, 2), lg = small ? -(int)vr_int(r, 3, 6) : (int)vr_int(r, 3, 5);
+        if(which != 1) q->lgx = lg;
+        if(which != 0) q->lgy = lg;
+        if(q->lgx < 0) c->xs = (int)vr_int(r, -1, 0);       /* a block in tiny units can only be centred: scaled options meet the zero-scale guard (C10) */
+        if(q->lgy < 0) c->ys = (int)vr_int(r, -1, 0);
+        break; }
+      case KD_UNITS: c->xs = (int[]){1, 2, 4, 5}[vr_int(r, 0, 3)]; if(c->p < 2) c->p = 2; break;
+      case KD_EXACT:
+        sub = (int)(round % 3);                                /* 0 / 1: orthogonal groups (exact up to rounding), 2: two-level design (exactly zero residual) */
+        if(sub < 2){
+          c->n = (int)vr_int(r, 10, 30); c->p = (int)vr_int(r, 4, 8); c->noise = 0;
+          c->xs = sub == 0 ? 0 : 1; c->ys = (int)vr_int(r, 0, 4); c->ny = (round % 2 == 0) ? 1 : 2;
+        } else {
+          c->n = vr_int(r, 0, 1) ? 8 : 16; c->p = (int)vr_int(r, 3, c->n == 8 ? 6 : 10); c->noise = 0;
+          c->xs = (int)vr_int(r, -1, 0); c->ys = 0; c->ny = 1;
+        }
+        lvmin = 2;
+        break;
+      case KD_YREL: c->ny = (int)vr_int(r, 2, 3); break;
+      case KD_EDGE:
+        sub = (int)(round % 4);
+        if(sub == 0){ c->p = 1; lvrank = 1; strcpy(q->tag, "K1:single-predictor"); }
+        else if(sub == 1){ c->nnew = (int)vr_int(r, 1, 2); strcpy(q->tag, "K1:one-or-two-unseen"); }
+        else if(sub == 3){ c->n = (int)vr_int(r, 6, 9); c->p = (int)vr_int(r, 1, c->n - 2); c->nnew = 10; strcpy(q->tag, "K1:unseen>training"); }
+        else { if(c->p < 3){ c->p = 3; if(c->n < 6) c->n = 6; } lvforce = 1; c->ny = (int)vr_int(r, 2, 3); strcpy(q->tag, "K1:nlv=1,ny>1"); }
+        break;
+      case KD_AFFOFF: c->ny = 1; c->ys = (int)vr_int(r, 0, 4); strcpy(q->tag, "K3:affine-d"); break;
+      case KD_DUPROW: if(c->n < c->p + 4) c->n = c->p + 4; if(c->n > 40){ c->n = 40; c->p = 10; } break;
+      case KD_HIST: break;
+      default: break;
+    }
+    if(kind == KD_HIST){
+      if(shape_like){ pc_case *a = &shape_like->c; c->n = a->n; c->p = a->p; c->ny = a->ny; c->xs = a->xs; c->ys = a->ys; c->noise = a->noise; c->nnew = a->nnew; lvforce = shape_like->nlv; }
+      else if(other_shape){
+        /* another shape class than a tall problem of moderate size: n = p+1 or a much larger / smaller one */
+        if(vr_int(r, 0, 1)){ c->p = (int)vr_int(r, 5, 10); c->n = c->p + 1; } else { c->n = (int)vr_int(r, 30, 40); c->p = (int)vr_int(r, 1, 3); }
+      }
+      strcpy(q->tag, "K7:hist");
+    }
+    if(kind == KD_EXACT){
+      NewMatrix(&c->X, c->n, c->p); NewMatrix(&c->Y, c->n, c->ny); NewMatrix(&c->Xn, c->nnew, c->p); NewMatrix(&c->Yn, c->nnew, c->ny);
+      if(sub < 2){
+        int groups = sub == 0 ? (int)vr_int(r, 1, c->p < 3 ? c->p : 3) : 1 + (int)vr_int(r, 0, 2);
+        c4_orthogonal_groups(c, r, groups);
+        q->exk = (sub == 0 ? groups : 1) * c->ny;             /* autoscaling equalises the column norms: one eigenvalue; block Krylov: ny per eigenvalue */
+        if(q->exk > c->p) q->exk = c->p;
+        snprintf(q->tag, sizeof(q->tag), "K8:exact-at-%d", q->exk);
+      } else {
+        c4_two_level(c, r);
+        q->exk = 1; strcpy(q->tag, "K8:exact-zero-residual");
+      }
+    } else gen_default(c, r);
+
+    int n = c->n, p = c->p;
+    if(kind == KD_OFFX || kind == KD_OFFXY) c4_relocate(c->X, c->Xn, r, 2.0, 8.0);
+    if(kind == KD_OFFY || kind == KD_OFFXY) c4_relocate(c->Y, c->Yn, r, 2.0, 8.0);
+    if(kind == KD_OFFX || kind == KD_OFFY || kind == KD_OFFXY) snprintf(q->tag, sizeof(q->tag), "K3:%s", kind == KD_OFFX ? "x" : kind == KD_OFFY ? "y" : "xy");
+    if(kind == KD_MAGN){
+      if(q->lgx){ c4_scale(c->X, pow(10.0, q->lgx)); c4_scale(c->Xn, pow(10.0, q->lgx)); }
+      if(q->lgy){ c4_scale(c->Y, pow(10.0, q->lgy)); c4_scale(c->Yn, pow(10.0, q->lgy)); }
+      snprintf(q->tag, sizeof(q->tag), "K4:%s", (q->lgx < 0 || q->lgy < 0) ? "small" : "large");
+    }
+    if(kind == KD_UNITS){
+      /* original units: every column with a spread of 15 .. 26 (offsets of a few spreads), so that 2^-8 stays clear of the zero-scale guard
+       * and 2^15 below 1e7 */
+      for(int j = 0; j < p; j++){
+        double mean, sd; c4_col_stats(c->X, j, &mean, &sd);
+        double f = (0.06 + 0.04 * vr_unif(r)) * 256.0 / sd;
+        c4_scale_col(c->X, j, f); c4_scale_col(c->Xn, j, f);
+      }
+      initMatrix(&q->Xorig); MatrixCopy(c->X, &q->Xorig); initMatrix(&q->Xnorig); MatrixCopy(c->Xn, &q->Xnorig);
+      for(int j = 0; j < p; j++){
+        int k = (int)vr_int(r, -8, 15); if(abs(k) > q->kmax) q->kmax = abs(k);
+        c4_scale_col(c->X, j, ldexp(1.0, k)); c4_scale_col(c->Xn, j, ldexp(1.0, k));
+      }
+      strcpy(q->tag, "K4:per-column-units");
+    }
+    if(kind == KD_GRID){
+      static const double ST[3] = {0.1, 1.0 / 3.0, 1e-3};
+      int sx = (int)vr_int(r, 0, 2), sy = (int)vr_int(r, 0, 2);
+      c4_snap(c->X, c->Xn, ST[sx], 3.0 + 3.0 * vr_int(r, 0, 1)); c4_snap(c->Y, c->Yn, ST[sy], sy == 2 ? 400.0 : 6.0);
+      if(ST[sx] < 0.01 && c->xs >= 1){ c4_scale(c->X, 1000.0); c4_scale(c->Xn, 1000.0); }      /* keep scaled blocks away from the zero-scale guard */
+      if(ST[sy] < 0.01 && c->ys >= 1){ c4_scale(c->Y, 1000.0); c4_scale(c->Yn, 1000.0); }
+      strcpy(q->tag, "K5:grid");
+    }
+    if(kind == KD_YREL){
+      int rel = (int)vr_int(r, 0, 2);
+      double **Y = c->Y->data, **Yn = c->Yn->data;
+      for(int i = 0; i < n + c->nnew; i++){
+        double *y = i < n ? Y[i] : Yn[i - n];
+        if(rel == 0) y[1] = y[0];                                      /* duplicated response: exactly tied variances */
+        else if(rel == 1) y[1] = 3.0 - y[0];                           /* mirrored */
+        else if(c->ny == 3) y[2] = 2.0 * y[0] - y[1] + 3.0;            /* exact linear combination of the others */
+        else y[1] = 0.5 * y[0] + 1.0;
+      }
+      snprintf(q->tag, sizeof(q->tag), "K8:%s", rel == 0 ? "y-duplicate" : rel == 1 ? "y-mirrored" : "y-dependent");
+    }
+    if(kind == KD_DUPROW){
+      int pairs = n - p - 2 >= 2 ? 2 : 1, withy = (int)vr_int(r, 0, 1);
+      for(int k = 0; k < pairs; k++){
+        int i1 = (int)vr_int(r, 0, n - 1), i2 = (int)vr_int(r, 0, n - 1); if(i1 == i2) i2 = (i1 + 1) % n;
+        for(int j = 0; j < p; j++) c->X->data[i2][j] = c->X->data[i1][j];
+        if(withy) for(int j = 0; j < c->ny; j++) c->Y->data[i2][j] = c->Y->data[i1][j];
+      }
+      snprintf(q->tag, sizeof(q->tag), "K8:%s", withy ? "dup-rows" : "dup-xrows");
+    }
+    if(c4_admit(c, 1e3, &q->cond) && !((kind == KD_OFFX || kind == KD_OFFXY) && !(bnorm_of(c) <= 49.0))){
+      q->rank = p;
+      q->nlv = lvforce ? lvforce : lvrank ? p : lvmin + (int)(lvu * (p - lvmin + 1));
+      if(q->nlv > p) q->nlv = p;
+      if(q->nlv < 1) q->nlv = 1;
+      return 1;
+    }
+    pc_case_free(c);
+    if(q->Xorig){ DelMatrix(&q->Xorig); DelMatrix(&q->Xnorig); }
+  }
+  return 0;
+}
+
+/* slope-based bias as the library defines it: |1 - cov(pred, true) / var(true)| */
+static double bias_def(double **T, int jt, double **P, int jp, int n){
+  long double mt = 0, mp = 0, sxy = 0, sxx = 0;
+  for(int i = 0; i < n; i++){ mt += T[i][jt]; mp += P[i][jp]; }
+  mt /= n; mp /= n;
+  for(int i = 0; i < n; i++){ sxy += (P[i][jp] - mp) * (T[i][jt] - mt); sxx += (T[i][jt] - mt) * (T[i][jt] - mt); }
+  return (double)fabsl(1.0L - sxy / sxx);
+}
+
+/* Fit .. End for one fitted model.  Outputs in `o` (see prep_m); r feeds the paired models */
+static void project(c4_prob *q, c4_outs *o, vrng *r, long idx){
+  pc_case c = q->c; int nlv = q->nlv; long jz = q->jz;
+  int n = c.n, p = c.p, ny = c.ny, m = c.nnew, reuse = q->reuse;
+  int cls = (q->kind != KD_BASE);
+  double offx = c.xs >= 0 ? c4_offset(c.X, jz) : 0, offy = c.ys >= 0 ? c4_offset(c.Y, -1) : 0;
+  int bigoff = (offx >= 1000 || offy >= 1000);
+  /* history of this process: position of the fit and its relation to the previous one (the ledger derives both again) */
+  static int h_n = 0, h_dims[4];
+  const char *hrel = h_n == 0 ? "first" : (h_dims[0] == n && h_dims[1] == p && h_dims[2] == ny && h_dims[3] == nlv) ? "same" : "other";
+  int hpos = h_n;
+  h_n++; h_dims[0] = n; h_dims[1] = p; h_dims[2] = ny; h_dims[3] = nlv;
+  VRT_EMIT("{\"e\":\"Fit\",\"n\":%d,\"p\":%d,\"ny\":%d,\"nlv\":%d,\"xs\":%d,\"ys\":%d,\"noise\":%d,\"intc\":0,\"cond\":%ld,\"nnew\":%d,\"small\":%ld,"
+           "\"rank\":%d,\"offx\":%ld,\"offy\":%ld,\"lgx\":%d,\"lgy\":%d,\"shape\":\"%s\",\"kind\":\"%s\",\"tag\":\"%s\",\"reuse\":%d,\"hist\":%d,\"hrel\":\"%s\",\"exk\":%d,"
+           "\"nb\":%d,\"pb\":%d,\"lb\":%d}",
+           n, p, ny, nlv, c.xs, c.ys, c.noise, (long)ceil(q->cond), m, jz, q->rank, c4_cap9(offx), c4_cap9(offy), q->lgx, q->lgy,
+           n > p + 1 ? "tall" : n == p + 1 ? "tall1" : "square", KD_NAME[q->kind], q->tag, reuse, hpos, hrel, q->exk, blk_code(n), blk_code(p), blk_code(nlv));
 
   PLSMODEL *mod; NewPLSModel(&mod);
+  /* does this model object live where a model of an earlier fit of this process lived?  (addresses kept as integers, taken before the free) */
+  static uintptr_t h_freed[8]; static int h_nfreed = 0;
+  int addr_reused = 0;
+  for(int i = 0; i < h_nfreed; i++) if(h_freed[i] == (uintptr_t)mod) addr_reused = 1;
   PLS(c.X, c.Y, (size_t)nlv, c.xs, c.ys, mod, NULL);
   int ncol = ny * nlv;
   if(mod->recalculated_y->row != (size_t)n || mod->recalculated_y->col != (size_t)ncol || mod->b->size != (size_t)nlv){
     VRT_EMIT("{\"e\":\"Shape\",\"reccol\":%zu,\"b\":%zu}", mod->recalculated_y->col, mod->b->size);
-    return 0;
+    DelPLSModel(&mod);
+    return;
   }
   double **R = mod->recalculated_y->data, **Y = c.Y->data, **X = c.X->data;
 
   /* predictions for unseen objects, all LV counts */
-  matrix *pn; initMatrix(&pn); PLSYPredictorAllLV(c.Xn, mod, NULL, pn);
+  prep_m(&o->pn, reuse, m, ncol);
+  matrix *pn = o->pn; PLSYPredictorAllLV(c.Xn, mod, NULL, pn);
   int pnok = (pn->row == (size_t)m && pn->col == (size_t)ncol);
   /* statistics as reported by the library */
-  matrix *cc, *rm, *bi; initMatrix(&cc); initMatrix(&rm); initMatrix(&bi);
+  prep_m(&o->cc, reuse, nlv, ny); prep_m(&o->rm, reuse, nlv, ny); prep_m(&o->bi, reuse, nlv, ny);
+  matrix *cc = o->cc, *rm = o->rm, *bi = o->bi;
   PLSRegressionStatistics(c.Y, mod->recalculated_y, cc, rm, bi);
-  matrix *ccn, *rmn, *bin; initMatrix(&ccn); initMatrix(&rmn); initMatrix(&bin);
+  prep_m(&o->ccn, reuse, nlv, ny); prep_m(&o->rmn, reuse, nlv, ny); prep_m(&o->bin, reuse, nlv, ny);
+  matrix *ccn = o->ccn, *rmn = o->rmn, *bin = o->bin;
   if(pnok) PLSRegressionStatistics(c.Yn, pn, ccn, rmn, bin);
+  int stok = (cc->row == (size_t)nlv && cc->col == (size_t)ny && rm->row == (size_t)nlv && rm->col == (size_t)ny && bi->row == (size_t)nlv && bi->col == (size_t)ny);
+  int stnok = (pnok && ccn->row == (size_t)nlv && ccn->col == (size_t)ny && rmn->row == (size_t)nlv && rmn->col == (size_t)ny && bin->row == (size_t)nlv && bin->col == (size_t)ny);
 
   double *ybar = malloc(sizeof(double) * ny), *den = malloc(sizeof(double) * ny), *tss = malloc(sizeof(double) * ny);
   for(int j = 0; j < ny; j++){
@@ -108,51 +400,83 @@ static int one_case(void *arg){
     int col = ny * (a - 1) + j;
     double rss = 0; for(int i = 0; i < n; i++) rss += (R[i][col] - Y[i][j]) * (R[i][col] - Y[i][j]);
     double ratio = rss / tss[j];
-    double g1 = (cc->row == (size_t)nlv && cc->col == (size_t)ny) ? fabs(cc->data[a - 1][j] - (1.0 - ratio)) / (ratio > 1 ? ratio : 1.0) : NAN;
-    double g2 = (rm->row == (size_t)nlv && rm->col == (size_t)ny) ? fabs(rm->data[a - 1][j] - sqrt(rss / n)) / sqrt(tss[j] / n) : NAN;
+    double g1 = stok ? fabs(cc->data[a - 1][j] - (1.0 - ratio)) / (ratio > 1 ? ratio : 1.0) : NAN;
+    double g2 = stok ? fabs(rm->data[a - 1][j] - sqrt(rss / n)) / sqrt(tss[j] / n) : NAN;
     double g = (g1 == g1 && g2 == g2) ? (g1 > g2 ? g1 : g2) : NAN;
-    VRT_EMIT("{\"e\":\"Rss\",\"a\":%d,\"j\":%d,\"rss\":%ld,\"r2gap\":%ld}", a, j, q9(rss / den[j]), pc_q12("r2gap", g));
+    VRT_EMIT("{\"e\":\"Rss\",\"a\":%d,\"j\":%d,\"rss\":%ld,\"r2gap\":%ld,\"r2\":%ld,\"dr\":%ld}", a, j, q9(rss / den[j]), pc_q12("r2gap", g),
+             stok ? vqs_unit(cc->data[a - 1][j], 1e-9) : VQ_MAX, c.ys >= 0 ? 1000L : c4_cap9(den[j] / tss[j] * 1000.0));
     /* unseen objects */
     double rn = 0, mn = 0, tn = 0;
     for(int i = 0; i < m; i++) mn += c.Yn->data[i][j];
     mn /= m;
     for(int i = 0; i < m; i++){ tn += (c.Yn->data[i][j] - mn) * (c.Yn->data[i][j] - mn); if(pnok) rn += (pn->data[i][col] - c.Yn->data[i][j]) * (pn->data[i][col] - c.Yn->data[i][j]); }
+    /* R2 of the unseen objects is defined only when their responses are not all equal (one object; ties): the spread is judged relative to the training spread */
+    int r2def = (m >= 2 && tn / m > 1e-6 * tss[j] / n);
     double rat = rn / tn;
-    double h1 = (pnok && ccn->row == (size_t)nlv) ? fabs(ccn->data[a - 1][j] - (1.0 - rat)) / (rat > 1 ? rat : 1.0) : NAN;
-    double h2 = (pnok && rmn->row == (size_t)nlv) ? fabs(rmn->data[a - 1][j] - sqrt(rn / m)) / sqrt(tn / m) : NAN;
+    double h1 = !stnok ? NAN : r2def ? fabs(ccn->data[a - 1][j] - (1.0 - rat)) / (rat > 1 ? rat : 1.0) : 0.0;
+    double h2 = stnok ? fabs(rmn->data[a - 1][j] - sqrt(rn / m)) / sqrt(tss[j] / n) : NAN;
     VRT_EMIT("{\"e\":\"Stat\",\"a\":%d,\"j\":%d,\"r2gap\":%ld,\"rmsegap\":%ld}", a, j, pc_q12("r2gapNew", h1), pc_q12("rmsegapNew", h2));
+    if(cls){
+      /* the third statistic: bias = |1 - slope of predicted on observed| (outside the statement) */
+      double b1 = stok ? fabs(bi->data[a - 1][j] - bias_def(Y, j, R, col, n)) : NAN;
+      double b2 = !stnok ? NAN : r2def ? fabs(bin->data[a - 1][j] - bias_def(c.Yn->data, j, pn->data, col, m)) : 0.0;
+      double bs = r2def ? fabs(bias_def(c.Yn->data, j, pn->data, col, m)) : 0.0;
+      VRT_EMIT("{\"e\":\"Bias\",\"a\":%d,\"j\":%d,\"gap\":%ld,\"gapNew\":%ld}", a, j, pc_q12("biasgap", b1), pc_q12("biasgapNew", b2 / (bs > 1 ? bs : 1.0)));
+      if(q->exk > 0 && a >= q->exk) VRT_EMIT("{\"e\":\"Exact\",\"a\":%d,\"j\":%d,\"rss\":%ld}", a, j, q9(rss / den[j]));
+    }
   }
 
-  /* independent least squares */
+  /* independent least squares on the design the model spans.  A centred block is centred here in extended precision (the same least-squares
+   * problem as an intercept column, without the conditioning an offset of 1e8 spreads would bring into [1 X]) */
   {
-    int icpt = (c.xs >= 0 && c.ys >= 0), k = p + icpt;
+    int k = p;
     double **D = pc_alloc(n, k), **Tg = pc_alloc(n, ny), **Bo = pc_alloc(k, ny);
+    long double *xm = calloc(p, sizeof(long double)), *ym = calloc(ny, sizeof(long double));
+    double *sdx = calloc(p, sizeof(double));
+    for(int j = 0; j < p; j++){ for(int i = 0; i < n; i++) xm[j] += X[i][j]; xm[j] /= n; if(c.xs < 0) xm[j] = 0; }
+    for(int j = 0; j < ny; j++){ for(int i = 0; i < n; i++) ym[j] += Y[i][j]; ym[j] /= n; if(c.ys < 0) ym[j] = 0; }
     for(int i = 0; i < n; i++){
-      if(icpt) D[i][0] = 1.0;
-      for(int j = 0; j < p; j++) D[i][icpt + j] = (c.xs >= 0 && !icpt) ? X[i][j] - pc_colmean(X, j, n) : X[i][j];
-      for(int j = 0; j < ny; j++) Tg[i][j] = (c.ys >= 0 && !icpt) ? Y[i][j] - ybar[j] : Y[i][j];
+      for(int j = 0; j < p; j++){ D[i][j] = (double)((long double)X[i][j] - xm[j]); sdx[j] += D[i][j] * D[i][j]; }
+      for(int j = 0; j < ny; j++) Tg[i][j] = (double)((long double)Y[i][j] - ym[j]);
     }
+    for(int j = 0; j < p; j++) sdx[j] = sqrt(sdx[j] / n);
     int info = pc_dgels(D, n, k, Tg, ny, Bo);
     for(int j = 0; j < ny; j++){
       int full = (nlv == p);
-      double rs = 0, df = 0, rp = 0;
-      for(int i = 0; i < n; i++){ double e = R[i][ny * (nlv - 1) + j] - Y[i][j]; rp += e * e; }
+      long double rs = 0, df = 0, rp = 0;
+      for(int i = 0; i < n; i++){ long double e = (long double)R[i][ny * (nlv - 1) + j] - Y[i][j]; rp += e * e; }
       for(int i = 0; i < n; i++){
-        double f = 0; for(int q = 0; q < k; q++) f += D[i][q] * Bo[q][j];
-        if(c.ys >= 0 && !icpt) f += ybar[j];
-        rs += (f - Y[i][j]) * (f - Y[i][j]);
-        double d = R[i][ny * (nlv - 1) + j] - f; df += d * d;
+        long double f = 0; for(int qq = 0; qq < k; qq++) f += (long double)D[i][qq] * Bo[qq][j];
+        long double e = f - Tg[i][j]; rs += e * e;
+        long double d = ((long double)R[i][ny * (nlv - 1) + j] - ym[j]) - f; df += d * d;
       }
+      double bn = 0; for(int qq = 0; qq < k; qq++) bn += fabs(Bo[qq][j]) * sdx[qq];
+      bn /= sqrt(tss[j] / n);
       if(info != 0){ rs = NAN; df = NAN; }
-      VRT_EMIT("{\"e\":\"Ols\",\"j\":%d,\"rssPls\":%ld,\"rssOls\":%ld,\"err\":%ld,\"full\":%d}", j, q9(rp / den[j]), q9(rs / den[j]), full ? pc_q12("olsErr", sqrt(df / den[j])) : 0L, full);
+      VRT_EMIT("{\"e\":\"Ols\",\"j\":%d,\"rssPls\":%ld,\"rssOls\":%ld,\"err\":%ld,\"full\":%d,\"bn\":%ld}", j, q9((double)rp / den[j]), q9((double)rs / den[j]),
+               full ? pc_q12(bigoff ? "olsErrK3" : "olsErr", sqrt((double)df / den[j])) : 0L, full, c.xs >= 0 ? c4_cap9(bn * 1000.0) : 0L);
+      if(full && jz < 0){
+        /* the same least-squares coefficients applied to the unseen objects against the score-based predictions (outside the statement, which
+         * speaks of the fitted responses); lev = largest leverage-like distance of an unseen object, in training spreads */
+        long double dn = 0; double lev = 0;
+        for(int i = 0; i < m; i++){
+          long double f = 0;
+          for(int qq = 0; qq < k; qq++){ long double xc = (long double)c.Xn->data[i][qq] - xm[qq]; f += xc * Bo[qq][j]; double z = fabs((double)xc) / sdx[qq]; if(z > lev) lev = z; }
+          long double d = pnok ? ((long double)pn->data[i][ny * (nlv - 1) + j] - ym[j]) - f : NAN; dn += d * d;
+        }
+        if(info != 0) dn = NAN;
+        VRT_EMIT("{\"e\":\"OlsNew\",\"j\":%d,\"err\":%ld,\"bn\":%ld,\"lev\":%ld}", j, pc_q12(bigoff ? "olsNewK3" : "olsNew", sqrt((double)dn / m) / sqrt(tss[j] / n)),
+                 c.xs >= 0 ? c4_cap9(bn * 1000.0) : 0L, c4_cap9(lev));
+      }
     }
-    pc_free(D, n); pc_free(Tg, n); pc_free(Bo, k);
+    pc_free(D, n); pc_free(Tg, n); pc_free(Bo, k); free(xm); free(ym); free(sdx);
   }
 
   if(ny == 1){
     /* coefficient form against score form */
     for(int a = 1; a <= nlv; a++){
-      dvector *be; initDVector(&be);
+      prep_v(&o->be, reuse, p);
+      dvector *be = o->be;
       PLSBetasCoeff(mod, (size_t)a, be);
       double et = 0, en = 0;
       int bok = (be->size == (size_t)p);
@@ -165,42 +489,52 @@ static int one_case(void *arg){
       }
       double sc = sqrt(den[0] / n);
       VRT_EMIT("{\"e\":\"Beta\",\"a\":%d,\"errTrain\":%ld,\"errNew\":%ld}", a, bok ? pc_q12("betaTrain", sqrt(et / n) / sc) : VQ_MAX, bok ? pc_q12("betaNew", sqrt(en / m) / sc) : VQ_MAX);
-      DelDVector(&be);
     }
     /* affine equivariance of a centred response */
     if(c.ys >= 0){
       for(int att = 0; att < 20; att++){
         /* change of units of the response.  Centring only (option 0): anything from 1e-8 to 1e8; with a scaling
-         * option the scale factor of c*y must stay clear of the library's zero-scale guard (admission below), so moderate c */
-        int wide = (c.ys == 0);
-        double cf = (vr_int(&r, 0, 1) ? 1.0 : -1.0) * (wide ? pow(10.0, -8.0 + 16.0 * vr_unif(&r)) : pow(10.0, -0.7 + 1.4 * vr_unif(&r)));
-        double df = fabs(cf) * sqrt(tss[0] / n) * 20.0 * (2 * vr_unif(&r) - 1);
+         * option the scale factor of c*y must stay clear of the library's zero-scale guard (admission below), so moderate c.
+         * The affine-offset class moves the response up to 1e8 of its spreads away (d), in moderate units */
+        int wide = (c.ys == 0) && q->kind != KD_AFFOFF && !bigoff && q->lgy == 0;
+        double cf = (vr_int(r, 0, 1) ? 1.0 : -1.0) * (wide ? pow(10.0, -8.0 + 16.0 * vr_unif(r)) : pow(10.0, -0.7 + 1.4 * vr_unif(r)));
+        double sdy = sqrt(tss[0] / n);
+        double df = fabs(cf) * sdy * 20.0 * (2 * vr_unif(r) - 1);
+        if(q->kind == KD_AFFOFF){
+          cf = (cf < 0 ? -1.0 : 1.0) * (0.06 + 0.04 * vr_unif(r)) / sdy * (vr_int(r, 0, 1) ? 1.0 : pow(10.0, -0.5 + vr_unif(r)));
+          df = (vr_int(r, 0, 1) ? 1.0 : -1.0) * fabs(cf) * sdy * pow(10.0, 2.0 + 6.0 * vr_unif(r));
+          if(fabs(df) > 8e6) df = df < 0 ? -8e6 : 8e6;
+        }
         matrix *Y2; NewMatrix(&Y2, n, 1);
         for(int i = 0; i < n; i++) Y2->data[i][0] = cf * Y[i][0] + df;
-        if(!wide && !pc_admit_block(Y2, c.ys)){ DelMatrix(&Y2); continue; }
+        if((!wide && !c4_admit_block(Y2, c.ys))){ DelMatrix(&Y2); continue; }
+        double off2 = c4_offset(Y2, -1);
         PLSMODEL *m2; NewPLSModel(&m2);
         PLS(c.X, Y2, (size_t)nlv, c.xs, c.ys, m2, NULL);
-        matrix *pn2; initMatrix(&pn2); PLSYPredictorAllLV(c.Xn, m2, NULL, pn2);
+        prep_m(&o->pn2, reuse, m, nlv);
+        matrix *pn2 = o->pn2; PLSYPredictorAllLV(c.Xn, m2, NULL, pn2);
         double et = 0, en = 0;
         int sok = (m2->recalculated_y->row == (size_t)n && m2->recalculated_y->col == (size_t)nlv && pn2->row == (size_t)m && pn2->col == (size_t)nlv && pnok);
         for(int a = 0; a < nlv && sok; a++){
-          double s1 = 0, s2 = 0;
-          for(int i = 0; i < n; i++){ double d = m2->recalculated_y->data[i][a] - (cf * R[i][a] + df); s1 += d * d; }
-          for(int i = 0; i < m; i++){ double d = pn2->data[i][a] - (cf * pn->data[i][a] + df); s2 += d * d; }
-          s1 = sqrt(s1 / n) / (fabs(cf) * sqrt(tss[0] / n)); s2 = sqrt(s2 / m) / (fabs(cf) * sqrt(tss[0] / n));
-          if(!(s1 <= et)) et = s1; if(!(s2 <= en)) en = s2;
+          long double s1 = 0, s2 = 0;
+          for(int i = 0; i < n; i++){ long double d = (long double)m2->recalculated_y->data[i][a] - ((long double)cf * R[i][a] + df); s1 += d * d; }
+          for(int i = 0; i < m; i++){ long double d = (long double)pn2->data[i][a] - ((long double)cf * pn->data[i][a] + df); s2 += d * d; }
+          double e1 = sqrt((double)s1 / n) / (fabs(cf) * sdy), e2 = sqrt((double)s2 / m) / (fabs(cf) * sdy);
+          if(!(e1 <= et)) et = e1; if(!(e2 <= en)) en = e2;
         }
         long cq = vqs_unit(cf, 1e-3); if(cq == 0) cq = cf < 0 ? -1 : 1;
-        VRT_EMIT("{\"e\":\"Affine\",\"c\":%ld,\"lg\":%ld,\"d\":%ld,\"errTrain\":%ld,\"errNew\":%ld}", cq, (long)floor(log10(fabs(cf))), vqs_unit(df / (fabs(cf) * sqrt(tss[0] / n)), 1e-3),
-                 sok ? pc_q12("affineTrain", et) : VQ_MAX, sok ? pc_q12("affineNew", en) : VQ_MAX);
-        DelMatrix(&pn2); DelPLSModel(&m2); DelMatrix(&Y2);
+        int k3 = (off2 >= 1000 || bigoff);
+        VRT_EMIT("{\"e\":\"Affine\",\"c\":%ld,\"lg\":%ld,\"d\":%ld,\"off\":%ld,\"errTrain\":%ld,\"errNew\":%ld}", cq, (long)floor(log10(fabs(cf))), vqs_unit(df / (fabs(cf) * sdy), 1e-3),
+                 c4_cap9(off2), sok ? pc_q12(k3 ? "affineTrainK3" : "affineTrain", et) : VQ_MAX, sok ? pc_q12(k3 ? "affineNewK3" : "affineNew", en) : VQ_MAX);
+        DelPLSModel(&m2); DelMatrix(&Y2);
         break;
       }
     }
   }
   /* the score-based predictor called for a = 1..nlv into ONE output matrix (the natural loop) gives the stored recalculated_y */
   {
-    matrix *out; initMatrix(&out);
+    prep_m(&o->out, reuse, n, ny);
+    matrix *out = o->out;
     double er = 0;
     for(int a = 1; a <= nlv; a++){
       PLSYPredictor(mod->xscores, mod, (size_t)a, out);
@@ -212,15 +546,15 @@ static int one_case(void *arg){
       }
     }
     VRT_EMIT("{\"e\":\"Reuse\",\"calls\":%d,\"err\":%ld}", nlv, pc_q12("reuse", er));
-    DelMatrix(&out);
   }
-  /* change of units of the predictors: X * s leaves every prediction unchanged.  Without a scaling factor (options -1, 0, and
-   * Pareto's sqrt) s ranges over 1e-8..1e6 as far as the values stay below 1e7; otherwise s is admitted only if every scale factor
-   * of X * s stays clear of the zero-scale guard */
+  /* change of units of the predictors: X * s leaves every prediction unchanged.  Without a scaling factor (options -1, 0) s ranges over
+   * 1e-8..1e6 as far as the values stay below 1e7; otherwise s is admitted only if every scale factor of X * s stays clear of the
+   * zero-scale guard.  Predictors far from the origin (K3) change units by a power of two (no new rounding of the data) */
   if(jz < 0){
     for(int att = 0; att < 20; att++){
       int freeunits = (c.xs <= 0);
-      double s = freeunits ? pow(10.0, -8.0 + 14.0 * vr_unif(&r)) : pow(10.0, -3.0 + 7.0 * vr_unif(&r));
+      double s = freeunits ? pow(10.0, -8.0 + 14.0 * vr_unif(r)) : pow(10.0, -3.0 + 7.0 * vr_unif(r));
+      if(offx >= 1000) s = ldexp(1.0, (int)ceil(log2(s)));          /* 2^-26 .. 2^20: stays inside 1e-8 .. 1e7 */
       matrix *X2, *Xn2; NewMatrix(&X2, n, p); NewMatrix(&Xn2, m, p);
       double mx = 0;
       for(int i = 0; i < n; i++) for(int j = 0; j < p; j++){ X2->data[i][j] = X[i][j] * s; if(fabs(X2->data[i][j]) > mx) mx = fabs(X2->data[i][j]); }
@@ -228,7 +562,8 @@ static int one_case(void *arg){
       if(mx > 1e7 || (!freeunits && !pc_admit_block(X2, c.xs))){ DelMatrix(&X2); DelMatrix(&Xn2); continue; }
       PLSMODEL *m3; NewPLSModel(&m3);
       PLS(X2, c.Y, (size_t)nlv, c.xs, c.ys, m3, NULL);
-      matrix *pn3; initMatrix(&pn3); PLSYPredictorAllLV(Xn2, m3, NULL, pn3);
+      prep_m(&o->pn3, reuse, m, ncol);
+      matrix *pn3 = o->pn3; PLSYPredictorAllLV(Xn2, m3, NULL, pn3);
       int sok = (m3->recalculated_y->row == (size_t)n && m3->recalculated_y->col == (size_t)ncol && pn3->row == (size_t)m && pn3->col == (size_t)ncol && pnok);
       double et = 0, en = 0;
       for(int col = 0; col < ncol && sok; col++){
@@ -239,23 +574,80 @@ static int one_case(void *arg){
         if(!(s1 <= et)) et = s1; if(!(s2 <= en)) en = s2;
       }
       VRT_EMIT("{\"e\":\"XScale\",\"lg\":%ld,\"errTrain\":%ld,\"errNew\":%ld}", (long)floor(log10(s)), sok ? pc_q12("xscaleTrain", et) : VQ_MAX, sok ? pc_q12("xscaleNew", en) : VQ_MAX);
-      DelMatrix(&pn3); DelPLSModel(&m3); DelMatrix(&X2); DelMatrix(&Xn2);
+      DelPLSModel(&m3); DelMatrix(&X2); DelMatrix(&Xn2);
       break;
     }
   }
-  VRT_EMIT("{\"e\":\"End\",\"lvs\":%d,\"cols\":%d,\"full\":%d,\"xfull\":0}", nlv, ncol, nlv == p ? 1 : 0);
-  pc_max_print();
+  /* per-column unit systems: the model of the same predictors in their original units predicts the same (scaling options that divide
+   * every column by a statistic of that column) */
+  if(q->Xorig){
+    PLSMODEL *m4; NewPLSModel(&m4);
+    PLS(q->Xorig, c.Y, (size_t)nlv, c.xs, c.ys, m4, NULL);
+    prep_m(&o->pn3, reuse, m, ncol);
+    matrix *pn4 = o->pn3; PLSYPredictorAllLV(q->Xnorig, m4, NULL, pn4);
+    int sok = (m4->recalculated_y->row == (size_t)n && m4->recalculated_y->col == (size_t)ncol && pn4->row == (size_t)m && pn4->col == (size_t)ncol && pnok);
+    double et = 0, en = 0;
+    for(int col = 0; col < ncol && sok; col++){
+      int j = col % ny; double sc = sqrt(tss[j] / n), s1 = 0, s2 = 0;
+      for(int i = 0; i < n; i++){ double d = m4->recalculated_y->data[i][col] - R[i][col]; s1 += d * d; }
+      for(int i = 0; i < m; i++){ double d = pn4->data[i][col] - pn->data[i][col]; s2 += d * d; }
+      s1 = sqrt(s1 / n) / sc; s2 = sqrt(s2 / m) / sc;
+      if(!(s1 <= et)) et = s1; if(!(s2 <= en)) en = s2;
+    }
+    VRT_EMIT("{\"e\":\"XUnits\",\"kmax\":%d,\"errTrain\":%ld,\"errNew\":%ld}", q->kmax, sok ? pc_q12("xunitsTrain", et) : VQ_MAX, sok ? pc_q12("xunitsNew", en) : VQ_MAX);
+    DelPLSModel(&m4);
+  }
+  VRT_EMIT("{\"e\":\"End\",\"lvs\":%d,\"cols\":%d,\"full\":%d,\"xfull\":0,\"addr\":%d}", nlv, ncol, nlv == q->rank ? 1 : 0, addr_reused);
   free(ybar); free(den); free(tss);
-  DelMatrix(&pn); DelMatrix(&cc); DelMatrix(&rm); DelMatrix(&bi); DelMatrix(&ccn); DelMatrix(&rmn); DelMatrix(&bin);
-  DelPLSModel(&mod); pc_case_free(&c);
+  if(h_nfreed < 8) h_freed[h_nfreed++] = (uintptr_t)mod;
+  DelPLSModel(&mod);
+  (void)idx;
+}
+
+static void prob_free(c4_prob *q){ pc_case_free(&q->c); if(q->Xorig){ DelMatrix(&q->Xorig); DelMatrix(&q->Xnorig); } }
+
+static int one_case(void *arg){
+  long idx = *(long *)arg;
+  vrng r = pc_stream(g_seed, (unsigned long)idx, 4);
+  c4_outs o; outs_init(&o);
+  c4_prob A;
+  if(!g_cls){
+    if(!(g_pairs ? draw_pairs(&A, &r, idx) : draw_base(&A, &r, idx))){ VRT_EMIT("{\"e\":\"Skip\",\"case\":%ld}", idx); return 0; }
+    VRT_EMIT("{\"e\":\"Reset\",\"case\":%ld,\"tries\":%d,\"sub\":0}", idx, A.tries);
+    project(&A, &o, &r, idx);
+    pc_max_print();
+    prob_free(&A);
+    return 0;
+  }
+  int kind = KD_SCHED[idx % 16];
+  if(!draw_class(&A, &r, idx, kind, NULL, 0)){ VRT_EMIT("{\"e\":\"Skip\",\"case\":%ld}", idx); return 0; }
+  if(kind != KD_HIST){
+    VRT_EMIT("{\"e\":\"Reset\",\"case\":%ld,\"tries\":%d,\"sub\":0}", idx, A.tries);
+    project(&A, &o, &r, idx);
+  } else {
+    /* fit A, fit A' (same shape and options, other data), fit B (another shape), fit A again - all in this one process, every one of
+     * them projected in full; the output objects go from fit to fit with what the previous fit left in them */
+    c4_prob A2, B;
+    vrng r2 = pc_stream(g_seed, (unsigned long)idx, 6), r3 = pc_stream(g_seed, (unsigned long)idx, 8), r4 = pc_stream(g_seed, (unsigned long)idx, 10);
+    int haveA2 = draw_class(&A2, &r3, idx, KD_HIST, &A, 0), haveB = draw_class(&B, &r2, idx, KD_HIST, NULL, 1);
+    int sub = 0;
+    A.hist = sub; VRT_EMIT("{\"e\":\"Reset\",\"case\":%ld,\"tries\":%d,\"sub\":%d}", idx, A.tries, sub); project(&A, &o, &r, idx); sub++;
+    if(haveA2){ A2.hist = sub; A2.reuse = 3; VRT_EMIT("{\"e\":\"Reset\",\"case\":%ld,\"tries\":%d,\"sub\":%d}", idx, A2.tries, sub); project(&A2, &o, &r3, idx); sub++; prob_free(&A2); }
+    if(haveB){ B.hist = sub; B.reuse = 3; VRT_EMIT("{\"e\":\"Reset\",\"case\":%ld,\"tries\":%d,\"sub\":%d}", idx, B.tries, sub); project(&B, &o, &r2, idx); sub++; prob_free(&B); }
+    A.hist = sub; A.reuse = 3; VRT_EMIT("{\"e\":\"Reset\",\"case\":%ld,\"tries\":%d,\"sub\":%d}", idx, A.tries, sub); project(&A, &o, &r4, idx);
+  }
+  pc_max_print();
+  prob_free(&A);
   return 0;
 }
 
 int main(int argc, char **argv){
-  if(argc < 5){ fprintf(stderr, "usage: c04_drv out seed first count\n"); return 2; }
+  if(argc < 5){ fprintf(stderr, "usage: c04_drv out seed first count [base|cls|pairs]\n"); return 2; }
   vrt_open(argv[1]);
   g_seed = strtoul(argv[2], 0, 10);
   long first = atol(argv[3]), count = atol(argv[4]);
+  g_cls = (argc >= 6 && !strcmp(argv[5], "cls"));
+  g_pairs = (argc >= 6 && !strcmp(argv[5], "pairs"));
   vrt_force_nproc(1);
   vrt_install_iter_budget(20000, 0);
   for(long idx = first; idx < first + count; idx++){
